@@ -59,10 +59,11 @@ impl<'a> Tape<'a> {
     }
 }
 
-pub const ALPHA: &[char] = &['a', 'b', 'A', 'B', '.', '-', '_', '0', '1', 'é', 'É', '字', ' ', '\n'];
+pub const ALPHA: &[char] =
+    &['a', 'b', 'A', 'B', '.', '-', '_', '0', '1', 'é', 'É', '字', ' ', '\n', '𐐨', '𐐀', '\u{301}'];
 /// characters used for path components (no separator)
 pub const PATH_ALPHA: &[char] =
-    &['a', 'b', 'A', 'B', '.', '-', '_', '0', '1', 'é', 'É', '字', ' ', '\n', 'x', '*', '[', '{', ','];
+    &['a', 'b', 'A', 'B', '.', '-', '_', '0', '1', 'é', 'É', '字', ' ', '\n', 'x', '*', '[', '{', ',', '𐐨', '𐐀', '\u{301}'];
 
 pub const K_B: u8 = 1; // boundary
 pub const K_Z: u8 = 2; // zero-or-more
@@ -260,6 +261,9 @@ fn gen_class(t: &mut Tape, cfg: &GenCfg) -> Tok {
                 Item::Range('0', '1'),
                 Item::Range('a', 'z'),
                 Item::Range('é', 'é'),
+                Item::Range('à', 'ï'),
+                Item::Range('𐐀', '𐐨'),
+                Item::Range('b', 'a'),
                 if cfg.class_sep == 0 { Item::Range('0', '1') } else { Item::Range('.', '0') },
             ]));
         }
@@ -267,7 +271,7 @@ fn gen_class(t: &mut Tape, cfg: &GenCfg) -> Tok {
             items.push(Item::Ch('/'));
         }
         else if t.chance(24) {
-            items.push(Item::Ch(t.pick(&['*', '?', '[', ']', '-', '{', ',', '$', '(', '^', '&'])));
+            items.push(Item::Ch(t.pick(&['*', '?', '[', ']', '-', '{', ',', '$', '(', '^', '&', '!', ':', '>'])));
         }
         else {
             items.push(Item::Ch(t.pick(ALPHA)));
@@ -289,6 +293,18 @@ fn gen_bounds(t: &mut Tape, cfg: &GenCfg) -> (usize, Option<usize>, u8) {
         h => h,
     };
     let spell = t.below(2) as u8;
+    // now and then a bound of two digits (the number is parsed, not looked up)
+    let (lo, hi) = if cfg.max_bound >= 3 && t.chance(8) {
+        match t.below(4) {
+            0 => (10, Some(10)),
+            1 => (0, Some(11)),
+            2 => (9, Some(12)),
+            _ => (10, None),
+        }
+    }
+    else {
+        (lo, hi)
+    };
     if cfg.violate > 0 && t.chance(cfg.violate / 3) {
         // misordered / degenerate bounds (rule R6); spelled canonically so that they stay as written
         return match t.below(3) {
